@@ -194,6 +194,10 @@ Section Merged.
     | MPrev => m_Prev s
     end.
 
+  (* the machine as a black box for the iterator above it (dbIter): a stuck step leaves the state *)
+  Definition merged_step (s : mstate) (m : move K) : mstate :=
+    match m_step s m with Some (s', _) => s' | None => s end.
+
   (* outputs of a call sequence; None = the machine got stuck (proved impossible) *)
   Fixpoint m_run (s : mstate) (ms : list (move K)) : option (list (output K V)) :=
     match ms with
